@@ -1,4 +1,5 @@
 import Qx.Xml.Codec.Schema
+import Qx.Props.C01Scalar
 /-!
 Helper lemmas for the schema-driven codecs (tier C of C01/C02): integer printer/parser round trip,
 scalar types, attribute / child lookup framing, and the generic field-list induction.
@@ -121,6 +122,69 @@ theorem lenientNat_lt (b : Nat) (s : Str) : lenientNat b s < 2 ^ b := by
 
 theorem strictNat_nil (b : Nat) : strictNat b [] = none := by
   simp [strictNat, trimQt, dropPlus]
+
+theorem dropSign_of_isDig (s : Str) (h : ∀ c ∈ s, isDig c = true) : dropSign s = (false, s) := by
+  cases s with
+  | nil => rfl
+  | cons c cs =>
+    have hc := h c (by simp)
+    simp only [isDig, Bool.and_eq_true, decide_eq_true_eq] at hc
+    have h1 : c ≠ '+' := by intro e; subst e; revert hc; decide
+    have h2 : ¬ (c = '-' ∨ c.toNat = 0x2212) := by
+      intro e
+      rcases e with e | e
+      · subst e; revert hc; decide
+      · omega
+    simp [dropSign, h1, h2]
+
+theorem strictInt_natToStr (b n : Nat) (h : n < 2 ^ b) : strictInt b (natToStr n) = some (false, n) := by
+  have h1 : trimQt (natToStr n) = natToStr n :=
+    trimQt_of_no_space _ (fun c hc => isDig_not_space (natToStr_isDig n c hc))
+  have h2 := dropSign_of_isDig _ (natToStr_isDig n)
+  have h3 : (natToStr n).isEmpty = false := by
+    cases hh : natToStr n with
+    | nil => exact absurd hh (natToStr_ne_nil n)
+    | cons _ _ => rfl
+  simp only [strictInt, h1, h2, h3, parseDigits_natToStr, h]
+  simp
+
+theorem strictInt_nil (b : Nat) : strictInt b [] = none := by
+  simp [strictInt, trimQt, dropSign]
+
+theorem strictInt_lt {b : Nat} {s : Str} {neg : Bool} {m : Nat} (h : strictInt b s = some (neg, m)) :
+    m ≤ 2 ^ b ∧ (neg = false → m < 2 ^ b) := by
+  simp only [strictInt] at h
+  split at h
+  · simp at h
+  · split at h
+    · split at h
+      · split at h
+        · simp at h; obtain ⟨rfl, rfl⟩ := h; exact ⟨by assumption, by simp⟩
+        · simp at h
+      · split at h
+        · simp at h; obtain ⟨rfl, rfl⟩ := h; exact ⟨by omega, fun _ => by assumption⟩
+        · simp at h
+    · simp at h
+
+theorem countOfSigned_lt {b : Nat} {s : Str} {g : Option Nat} {n : Nat} (hg : ∀ k, g = some k → k < 2 ^ b)
+    (h : countOfSigned g (strictInt b s) = some n) : n < 2 ^ b := by
+  cases hs : strictInt b s with
+  | none => rw [hs] at h; exact hg n h
+  | some r =>
+    obtain ⟨neg, m⟩ := r
+    rw [hs] at h
+    have hl := strictInt_lt hs
+    simp only [countOfSigned] at h
+    split at h
+    · simp at h
+    · rename_i hc
+      simp at h; subst h
+      cases neg with
+      | false => exact hl.2 rfl
+      | true =>
+        simp at hc
+        subst hc
+        exact Nat.two_pow_pos b
 
 theorem lenientNat_nil (b : Nat) : lenientNat b [] = 0 := by
   simp [lenientNat, strictNat_nil]
@@ -260,6 +324,9 @@ theorem idxOf_nth : ∀ {names : List Str} {i : Nat}, nodupB names = true → i 
       exact nth_mem hi
     simp [idxOf, nth, hne, idxOf_nth hn.2 hi]
 
+theorem dtParseCode_nil : Scalar.dtParseCode [] = none := by
+  simp [Scalar.dtParseCode, Scalar.units]
+
 /-! ### scalar types -/
 
 theorem FTy.canon_parse (ty : FTy) (s : Str) : ty.canon (ty.parse s) = true := by
@@ -271,6 +338,18 @@ theorem FTy.canon_parse (ty : FTy) (s : Str) : ty.canon (ty.parse s) = true := b
     cases h : strictNat b s with
     | none => rfl
     | some n => simp [FTy.canon, strictNat_lt h]
+  | optInt b =>
+    simp only [FTy.parse]
+    cases h : countOfSigned none (strictInt b s) with
+    | none => rfl
+    | some n => simp [FTy.canon, countOfSigned_lt (by simp) h]
+  | optIntZ b =>
+    simp only [FTy.parse]
+    cases h : countOfSigned (some 0) (strictInt b s) with
+    | none => rfl
+    | some n =>
+      have := countOfSigned_lt (g := some 0) (b := b) (by intro k hk; simp at hk; subst hk; exact Nat.two_pow_pos b) h
+      simp [FTy.canon, this]
   | flag ts => rfl
   | enum ns =>
     simp only [FTy.parse]
@@ -287,6 +366,13 @@ theorem FTy.canon_parse (ty : FTy) (s : Str) : ty.canon (ty.parse s) = true := b
     rintro c ⟨b, hb, rfl⟩
     have := b64dec_lt s b hb
     rw [toNat_ofNat_byte b this]; exact this
+  | dateTime =>
+    simp only [FTy.parse]
+    cases h : (Scalar.dtParseCode s).filter (fun d => decide (Scalar.ValidDt d)) with
+    | none => rfl
+    | some d =>
+      have := Option.mem_filter_iff.mp (Option.mem_def.mpr h)
+      simp only [FTy.canon]; exact this.2
 
 /-- (A)+(B): whatever is printed (possibly nothing) parses back to the value -/
 theorem FTy.parse_show (ty : FTy) (v : Val) (hw : ty.wf = true) (hc : ty.canon v = true) :
@@ -303,6 +389,16 @@ theorem FTy.parse_show (ty : FTy) (v : Val) (hw : ty.wf = true) (hc : ty.canon v
       | none => simp [FTy.show, FTy.parse, strictNat_nil]
       | some n => simp_all [FTy.canon, FTy.show, FTy.parse, strictNat_natToStr]
     | _ => simp [FTy.canon] at hc
+  | optInt b =>
+    cases v with
+    | opt i =>
+      cases i with
+      | none => simp [FTy.show, FTy.parse, strictInt_nil, countOfSigned]
+      | some n =>
+        simp only [FTy.canon, decide_eq_true_eq] at hc
+        simp [FTy.show, FTy.parse, strictInt_natToStr b n hc, countOfSigned]
+    | _ => simp [FTy.canon] at hc
+  | optIntZ b => simp [FTy.wf] at hw
   | flag ts =>
     cases v with
     | flag b =>
@@ -342,6 +438,15 @@ theorem FTy.parse_show (ty : FTy) (v : Val) (hw : ty.wf = true) (hc : ty.canon v
       simp only [FTy.show, FTy.parse]
       rw [b64dec_b64enc _ (by simpa [bytesOf] using hc), strOfBytes_bytesOf]
     | _ => simp [FTy.canon] at hc
+  | dateTime =>
+    cases v with
+    | dt d =>
+      cases d with
+      | none => simp [FTy.show, FTy.parse, dtParseCode_nil]
+      | some d =>
+        simp only [FTy.canon, decide_eq_true_eq] at hc
+        simp [FTy.show, FTy.parse, Scalar.dt_roundtrip d hc, hc]
+    | _ => simp [FTy.canon] at hc
 
 /-- (C): the value an omitting writer skips is what an absent attribute/element reads as -/
 theorem FTy.parse_nil_of_default (ty : FTy) (v : Val) (hw : ty.wf = true) (hc : ty.canon v = true)
@@ -353,6 +458,11 @@ theorem FTy.parse_nil_of_default (ty : FTy) (v : Val) (hw : ty.wf = true) (hc : 
     cases v with
     | opt i => cases i <;> simp_all [FTy.isDefault, FTy.parse, strictNat_nil]
     | _ => simp [FTy.canon] at hc
+  | optInt b =>
+    cases v with
+    | opt i => cases i <;> simp_all [FTy.isDefault, FTy.parse, strictInt_nil, countOfSigned]
+    | _ => simp [FTy.canon] at hc
+  | optIntZ b => simp [FTy.wf] at hw
   | flag ts =>
     cases v with
     | flag b =>
@@ -378,6 +488,10 @@ theorem FTy.parse_nil_of_default (ty : FTy) (v : Val) (hw : ty.wf = true) (hc : 
       simp only [FTy.isDefault, List.isEmpty_iff] at hd
       subst hd
       rfl
+    | _ => simp [FTy.canon] at hc
+  | dateTime =>
+    cases v with
+    | dt d => cases d <;> simp_all [FTy.isDefault, FTy.parse, dtParseCode_nil]
     | _ => simp [FTy.canon] at hc
 
 /-! ### attribute and child lookup -/
@@ -732,7 +846,7 @@ theorem decF_encF : ∀ (f : Field) (pns t : Str) (P R : List (Str × Str)) (Q S
     cases v with
     | absent =>
       simp only [canonF] at hc
-      simp only [List.nil_append, find?_none_of_all_false _ S hS, hc, if_true]
+      simp only [List.nil_append, find?_none_of_all_false _ S hS, hc, if_true, Option.filter_none]
     | record vs =>
       simp only [canonF] at hc
       cases hcond : (mode == ChildMode.wrapOmit && (encFs fs vs).1.isEmpty && (encFs fs vs).2.isEmpty) with
@@ -743,7 +857,8 @@ theorem decF_encF : ∀ (f : Field) (pns t : Str) (P R : List (Str × Str)) (Q S
         have hmode : (mode == ChildMode.optional) = false := by
           have h1 := hcond.1.1
           cases mode <;> first | rfl | exact absurd h1 (by decide)
-        simp only [List.nil_append, find?_none_of_all_false _ S hS, hmode, Bool.false_eq_true, if_false]
+        simp only [List.nil_append, find?_none_of_all_false _ S hS, hmode, Bool.false_eq_true, if_false,
+          Option.filter_none]
         have := decFs_encFs fs h.ns [] [] [] vs hw.2 hc (by simp) (by simp)
         rw [hcond.1.2, hcond.2] at this
         simpa [nullNode] using congrArg Val.record this
@@ -751,8 +866,9 @@ theorem decF_encF : ∀ (f : Field) (pns t : Str) (P R : List (Str × Str)) (Q S
         simp only [hcond, Bool.false_eq_true, ↓reduceIte]
         have hx := encFs_no_xmlns vs hw.2
         have hm := head_matches_mk' h pns (encFs fs vs).1 (encFs fs vs).2 hw.1 hx
-        simp only [List.singleton_append, List.find?_cons, hm]
-        rw [nsOf_mk' h pns _ _ hw.1 hx]
+        have hns := nsOf_mk' h pns _ (encFs fs vs).2 hw.1 hx
+        simp only [List.singleton_append, List.find?_cons, hm, Option.filter_some, hns, beq_self_eq_true,
+          Bool.or_true, if_true]
         have := decFs_encFs fs h.ns h.tag (nsAttr h.decl h.ns) [] vs hw.2 hc
           (by
             intro kv hkv f hf
@@ -910,6 +1026,8 @@ theorem FTy.isDefault_parse_nil (ty : FTy) (hw : ty.wf = true) : ty.isDefault (t
   | str => rfl
   | nat b => simp [FTy.parse, FTy.isDefault, lenientNat_nil]
   | optNat b => simp [FTy.parse, FTy.isDefault, strictNat_nil]
+  | optInt b => simp [FTy.parse, FTy.isDefault, strictInt_nil, countOfSigned]
+  | optIntZ b => simp [FTy.wf] at hw
   | flag ts =>
     simp only [FTy.wf, Bool.and_eq_true, Bool.not_eq_true', contains_false_iff] at hw
     simp [FTy.parse, FTy.isDefault, hw.2]
@@ -920,6 +1038,7 @@ theorem FTy.isDefault_parse_nil (ty : FTy) (hw : ty.wf = true) : ty.isDefault (t
     simp only [FTy.wf, Bool.and_eq_true, Bool.not_eq_true', contains_false_iff] at hw
     simp [FTy.parse, FTy.isDefault, idxOf_none_of_not_mem hw.1]
   | b64 => rfl
+  | dateTime => simp [FTy.parse, FTy.isDefault, dtParseCode_nil]
 
 mutual
 theorem decF_fix : ∀ (f : Field) (pns : Str) (x : Node), decF pns x (fixF f) = decF pns x f
